@@ -374,8 +374,9 @@ TIES = {
                              "CodeAria", "CodeCamellia", "CodeSm4"]],
     "C07": [P_ + x for x in ["GenCipherMagma", "GenKeysMagma", "GenCipherBelt", "GenKeysBelt", "CodeMagma", "CodeBelt", "GenCipherKuznyechik", "GenKeysKuznyechik",
                              "GenFuncsKuznyechik", "GenCipherKuznyechikSoft", "GenKeysKuznyechikSoft", "GenKuznyechikSoftTables", "CodeKuznyechik", "CodeKuznyechikSoft"]],
-    "C08": [P_ + x for x in ["GenCipherSerpent", "GenKeysSerpent", "GenCipherCast6", "GenKeysCast6", "CodeSerpent", "CodeCast6"]],
-    "C09": [P_ + x for x in ["GenCipherCast5", "GenCipherRc2", "GenCipherXtea", "GenKeysXtea", "CodeXtea", "GenKeysCast5", "CodeCast5", "GenKeysRc2", "CodeRc2"]],
+    "C08": [P_ + x for x in ["GenCipherSerpent", "GenKeysSerpent", "GenCipherCast6", "GenKeysCast6", "CodeSerpent", "CodeCast6", "GenFnTwofish"]],
+    "C09": [P_ + x for x in ["GenCipherCast5", "GenCipherRc2", "GenCipherXtea", "GenKeysXtea", "CodeXtea", "GenKeysCast5", "CodeCast5", "GenKeysRc2", "CodeRc2", "GenFnIdea", "GenCipherIdea", "GenKeysIdea", "CodeIdea"]],
+    "C13": [P_ + x for x in ["GenFnWeak", "CodeWeak"]],
     "C10": [P_ + x for x in ["GenCipherSpeck", "GenCipherThreefish", "GenKeysThreefish", "GenCipherGift", "GenKeysGift", "CodeGift", "GenKeysSpeck", "CodeSpeck", "CodeThreefish"]],
 }
 
